@@ -277,3 +277,19 @@ func init() {
 	mut("C10", "(benign) V1Currency bound written as >= 17", false, "",
 		Edit{e, "\tif n > 16 {\n\t\td.SetErr(fmt.Errorf(\"Currency too large: %v bytes\", n))", "\tif n >= 17 {\n\t\td.SetErr(fmt.Errorf(\"Currency too large: %v bytes\", n))"})
 }
+
+func init() {
+	// ---- C12 ----
+	mut("C12", "RenewalSigHash forgets to strip the new contract's host signature", true, "sig-stripping",
+		Edit{"consensus/state.go", "\t\t&fcr.NewContract.RenterSignature, &fcr.NewContract.HostSignature,\n", "\t\t&fcr.NewContract.RenterSignature,\n"})
+	mut("C12", "AttestationSigHash drops the v2 replay prefix", true, "replay-prefix",
+		Edit{"consensus/state.go", "hashAll(\"sig/attestation\", s.v2ReplayPrefix(), a)", "hashAll(\"sig/attestation\", a)"})
+	mut("C12", "attestation and contract signature hashes share a distinguisher", true, "layout",
+		Edit{"consensus/state.go", "hashAll(\"sig/attestation\", s.v2ReplayPrefix(), a)", "hashAll(\"sig/filecontract\", s.v2ReplayPrefix(), a)"})
+	mut("C12", "WholeSigHash omits the replay prefix before siacoin inputs", true, "replay-prefix",
+		Edit{"consensus/state.go", "\th.E.WriteUint64(uint64(len((txn.SiacoinInputs))))\n\tfor i := range txn.SiacoinInputs {\n\t\th.E.Write(s.replayPrefix())\n", "\th.E.WriteUint64(uint64(len((txn.SiacoinInputs))))\n\tfor i := range txn.SiacoinInputs {\n"})
+	mut("C12", "V2TransactionSemantics stops committing the miner fee", true, "exclusion-set",
+		Edit{"types/encoding.go", "\tEncodePtr(e, txn.NewFoundationAddress)\n\tV2Currency(txn.MinerFee).EncodeTo(e)\n}", "\tEncodePtr(e, txn.NewFoundationAddress)\n}"})
+	mut("C12", "(benign) ContractSigHash zeroes the signatures by assignment", false, "",
+		Edit{"consensus/state.go", "\tnilSigs(&fc.RenterSignature, &fc.HostSignature)\n\treturn hashAll(\"sig/filecontract\"", "\tfc.RenterSignature, fc.HostSignature = types.Signature{}, types.Signature{}\n\treturn hashAll(\"sig/filecontract\""})
+}
